@@ -284,6 +284,23 @@ func registerStrings(e *Engine) {
 	e.Intr["strings.HasPrefix"] = func(c *Call) []*State { return c.Return(StrPrefixOf(c.argTerm(1), c.argTerm(0))) }
 	e.Intr["strings.HasSuffix"] = func(c *Call) []*State { return c.Return(StrSuffixOf(c.argTerm(1), c.argTerm(0))) }
 	e.Intr["strings.Contains"] = func(c *Call) []*State { return c.Return(StrContains(c.argTerm(0), c.argTerm(1))) }
+	e.Intr["strings.ContainsAny"] = func(c *Call) []*State {
+		chars := c.argTerm(1)
+		if !chars.Const {
+			panic(unsupported("strings.ContainsAny with a symbolic character set"))
+		}
+		var alts []*Term
+		for i := 0; i < len(chars.S); i++ {
+			if chars.S[i] >= 0x80 {
+				panic(unsupported("strings.ContainsAny with a non-ASCII character set"))
+			}
+			alts = append(alts, StrContains(c.argTerm(0), StrC(chars.S[i:i+1])))
+		}
+		if len(alts) == 0 {
+			return c.Return(False)
+		}
+		return c.Return(Or(alts...))
+	}
 	e.Intr["strings.Index"] = func(c *Call) []*State {
 		return c.Return(IntToBV(StrIndexOf(c.argTerm(0), c.argTerm(1), IntC(0)), 64))
 	}
